@@ -2097,6 +2097,18 @@ class C14(Check):
             for total in (32767, 32768, 65535):
                 n = total + (40 if fr_i >= 3 else 0) - over
                 cases.append(S(self.l4_frames(B((i * 13 + 5) & 255 for i in range(n)))[fr_i]))
+        # --- 15: DNS messages longer than 1 KiB / 16 KiB: a name first written at a chosen offset and then REPEATED, so that the compression
+        #     pointer (14 bits, RFC 1035 4.1.4) points at 1023 / 1024 / 1025, 4095 / 4096, 16383, and at the first offsets a pointer cannot hold
+        for at in (300, 1023, 1024, 1025, 2047, 2048, 4095, 4096, 8192, 16382, 16383, 16384, 16385, 20000):
+            for how in ("rr-name", "ns-data", "question-first"):
+                fill = at - 5 - 29                       # header 12 + "f.org" 7 + fixed RR part 10 + filler rdata, then "\x04late" (5) in front of the zone
+                rr = lambda name, t=16, data="616263": {"name": name, "qtype": t, "qclass": 1, "ttl": 5, "data": data}
+                D = {"k": "dns", "id": 7, "qr": True, "opcode": 0, "aa": False, "tc": False, "rd": True, "ra": True, "z": False, "ad": False, "cd": False, "rcode": 0,
+                     "questions": [], "answers": [rr("f.org", 16, "74" * fill), rr("late.unique-zone.net")], "authorities": [], "additional": []}
+                if how == "rr-name": D["answers"].append(rr("again.unique-zone.net"))
+                elif how == "ns-data": D["authorities"].append(rr("f.org", 2, "ns1.unique-zone.net"))
+                else: D["additional"] += [rr("unique-zone.net", 5, "late.unique-zone.net"), rr("x.late.unique-zone.net", 1, 0x0a000001)]
+                cases.append(S([E, I(17), dict(U, srcport=53, dstport=40000), D, {"k": "none"}]))
         cases.append(S([E, I(253), B(b"\xa5" * 65515)]))
         cases.append(S([E, I(253, hl=15, raw_options="01" * 40), B(b"\xa5" * 65475)]))
         cases.append(S([E, I(6), T([{"t": 1}] * 40), B(b"\x5a" * 65455)]))
